@@ -107,6 +107,7 @@ type Peer struct {
 	NoAutoKeys  bool
 	seenSeq     map[uint16]bool // DTLS: message_seq values already digested (retransmitted flights are ignored)
 	lastSent    []byte
+	ccsSent     bool
 }
 
 func (p *Peer) logKind(k string) { p.Kinds = append(p.Kinds, k) }
@@ -175,6 +176,10 @@ func (p *Peer) SendApp(b []byte) error           { return p.SendRecord(RecApp, b
 // SendCCS sends change_cipher_spec and switches the write keys (when keys exist).
 func (p *Peer) SendCCS() error {
 	err := p.SendRecord(RecCCS, []byte{1})
+	if p.DTLS && (p.ccsSent || p.pendWr == nil) {
+		return err // a repeated or premature ChangeCipherSpec does not open another epoch
+	}
+	p.ccsSent = true
 	p.activateWrite()
 	return err
 }
